@@ -90,6 +90,18 @@ CHECKS = {
             'Token equality on public fields; a LatexWalkerTokenParseError legitimately ends a '
             'strict reading.',
             'DESIGN.md 5 C11'),
+    'C13': ('exploration',
+            'bounded-exhaustive active-character strings, every built-in character in six '
+            'neighbour templates, Hypothesis mixtures; oracle = strict parse of the encoder output '
+            '+ node-kind census + table-computed fail/ASCII predicates',
+            'All strings <= 3/4 over the ten active ASCII characters (+4 neutral ones), every '
+            'character of both built-in tables, random mixtures with arbitrary code points, each '
+            'under 2 rule sets x 5 protections x 5 policies: output parses strictly, braces '
+            'balance, no comment / environment / foreign math node, ASCII-only where promised, '
+            'ValueError exactly where the tables say.',
+            'Default walker context for the strict parse; 13 combining characters of the '
+            'unicode-xml table are listed known findings and excluded by construction.',
+            'DESIGN.md 5 C13'),
     'C14': ('exploration',
             'model-based testing over generated operation histories (Hypothesis) and exhaustive '
             'short histories; reference model of the category-ordered database',
